@@ -88,12 +88,12 @@ class RaisingMapping(collections.abc.Mapping):
                     raise Boom('mapping failed')
                 self._served += 1
                 return v
-        raise Boom('mapping failed')
+        raise Boom('mapping failed')        # (style 2: the key after the delivered ones - a key the receiver may hold)
 
     def __iter__(self):
         for k, _ in self._items:
             yield k
-        if self._style:
+        if self._style == 1:
             raise Boom('mapping failed')
         yield self._extra
 
@@ -202,7 +202,14 @@ class FnEffects:
         for name in self.params + [x.arg for x in a.kwonlyargs] + [x.arg for x in (a.vararg, a.kwarg) if x is not None]:
             self.taint[name] = {'P:' + name}                          # symbolic: whatever the caller passes here
         for _ in range(4):       # a few rounds: names may be used before the assignment that taints them (loops)
-            self.visit_body(fn.body)
+            for st_ in fn.body:
+                self.visit(st_)
+                # the one flow-sensitive step: a statement at the TOP level of the body that rebinds a name to a new
+                # object (`v = list(v)`) ends what the name stood for - for everything that follows
+                if isinstance(st_, ast.Assign) and len(st_.targets) == 1 and isinstance(st_.targets[0], ast.Name) \
+                        and isinstance(st_.value, ast.Call) and isinstance(st_.value.func, ast.Name) \
+                        and st_.value.func.id in FRESH and st_.value.func.id not in self.alias:
+                    self.taint.pop(st_.targets[0].id, None)
 
     def is_state(self, attr):
         if attr in self.methods or attr.startswith('__'):
@@ -1142,7 +1149,11 @@ class C01(Property):
             return collections.defaultdict(lambda: z, ps)
         if kind == 'mx':
             cx.n += 1
-            return RaisingMapping(cx.pairs(E[1]), ('never', 'a key'), cx.n % 2)
+            style = cx.n % 3
+            # style 2: the value of a key the receiver may well hold cannot be read (a replacement that deletes the old
+            # pairs before it has the new value would leave the key half replaced)
+            extra = KEY_FORMS[cx.u][(E[1][-1][0] + 1) % NK if E[1] else 0][0] if style == 2 else ('never', 'a key')
+            return RaisingMapping(cx.pairs(E[1]), extra, style)
         if kind == 'x':
             return {'l': lambda: list(s.items(multi=True)), 'n': lambda: None, 'i': lambda: 5,
                     'td': lambda: s.todict()}[E[1]]()
